@@ -787,7 +787,11 @@ def make_cert(common_names=('alice',), eku='client'):
     if eku is not None:
         usages = {'client': [ExtendedKeyUsageOID.CLIENT_AUTH],
                   'server': [ExtendedKeyUsageOID.SERVER_AUTH],
-                  'both': [ExtendedKeyUsageOID.SERVER_AUTH, ExtendedKeyUsageOID.CLIENT_AUTH]}[eku]
+                  'both': [ExtendedKeyUsageOID.SERVER_AUTH, ExtendedKeyUsageOID.CLIENT_AUTH],
+                  'other': [ExtendedKeyUsageOID.CODE_SIGNING, ExtendedKeyUsageOID.EMAIL_PROTECTION],
+                  'any': [ExtendedKeyUsageOID.ANY_EXTENDED_KEY_USAGE],
+                  'other+client': [ExtendedKeyUsageOID.CODE_SIGNING, ExtendedKeyUsageOID.TIME_STAMPING,
+                                   ExtendedKeyUsageOID.CLIENT_AUTH]}[eku]
         b = b.add_extension(x509.ExtendedKeyUsage(usages), critical=False)
     cert = b.sign(_KEY, hashes.SHA256())
     der = cert.public_bytes(serialization.Encoding.DER)
